@@ -48,9 +48,15 @@ def test_words(R, terminals, full=4):
     alphabet = list(terminals)[:3] + [gen_cfg.FOREIGN]
     words = words_upto(alphabet, 3)
     lang = R.language_upto(full)
-    words = words + sorted((w for w in lang if len(w) == full), key=repr)
-    nonmembers = [w for w in itertools.product(sorted(terminals, key=repr)[:2], repeat=full) if w not in lang][:8]
-    return words + nonmembers, lang
+    words = words + sorted((w for w in lang if 4 <= len(w) <= full), key=repr)[:60]
+    nonmembers = [w for w in itertools.product(sorted(terminals, key=repr)[:2], repeat=4) if w not in lang][:8]
+    # near misses of long members: one symbol dropped
+    for w in sorted((w for w in lang if len(w) >= 4), key=repr)[:12]:
+        for i in range(len(w)):
+            v = w[:i] + w[i + 1:]
+            if v not in lang and v not in nonmembers:
+                nonmembers.append(v)
+    return words + nonmembers[:40], lang
 
 
 def grammar_labels(R, d):
@@ -87,7 +93,7 @@ def run_case(case):
         g = ref_cfg.build_lib(d)
     if failures:
         return {"failures": failures}
-    words, lang = test_words(R, sorted(R.terms, key=repr))
+    words, lang = test_words(R, sorted(R.terms, key=repr), full=6 if d.get("big") else 4)
     with guard(failures, "contains"):
         for w in words:
             got = g.contains(list(w))
@@ -120,6 +126,8 @@ def run_case(case):
     labels, special = grammar_labels(R, d)
     if () in lang:
         labels.append("epsilon_in_language")
+    if d.get("big"):
+        labels.append("big")
     return {"failures": failures, "labels": labels, "nontrivial": len(lang) >= 2 and special}
 
 
